@@ -182,6 +182,10 @@ def run(ctx, scratch):
         else:
             ks = [2, 3] + ([4] if n <= 25 else [])
         c['ks'] = ks
+        # the model (vm_compute on lists) is evaluated for k up to (largest clique size + 2): beyond, the kernel repeats
+        # the same exploration and returns 0; the implementation is still run for every k and checked against brute force
+        omega = max(prof) if prof else None
+        c['mks'] = [k for k in ks if omega is None or k <= omega + 2]
         c['order'], c['core'] = peeling(n, adj)
         c['tri'] = cliques_bruteforce(n, adj, 3)
         c['dtype'] = rng.choice(['int', 'bool', 'float'])
@@ -219,13 +223,13 @@ def run(ctx, scratch):
         c['argsort'] = a
         al = clist(a, cnat)
         exprs.append('(count_triangles %s, compute_core %s, qpair (clustering_coefficient %s), peel %s %s, '
-                     '[%s], [%s])' % (g, g, g, g, clist(c['order'], cnat),
-                                      '; '.join('count_cliques %s %d %s' % (g, k, al) for k in c['ks']),
-                                      '; '.join('count_cliques_L1 %s %d %s' % (g, k, al) for k in c['ks'])))
+                     '[%s], [%s], core_heap_inv %s)' % (g, g, g, g, clist(c['order'], cnat),
+                                      '; '.join('count_cliques %s %d %s' % (g, k, al) for k in c['mks']),
+                                      '; '.join('count_cliques_L1 %s %d %s' % (g, k, al) for k in c['mks']), g))
     vals = coq_eval('c11u', IMPORTS, exprs, prelude=PRELUDE, shard=150 if quick else 100, timeout=1500)
     for c, v in zip(cases, vals):
         c['model'] = dict(tri=v[0], core=opt(v[1]), coef=None if v[2] is None else Fraction(v[2][1][0], v[2][1][1]), peel=opt(v[3]),
-                          cliques=[res_nat(x) for x in v[4]], cliques_l1=[res_nat(x) for x in v[5]])
+                          cliques=[res_nat(x) for x in v[4]], cliques_l1=[res_nat(x) for x in v[5]], heap_inv=v[6])
     dvals = coq_eval('c11d', IMPORTS, ['(count_triangles %s, count_triangles %s)' % (glit(c['n'], c['E']), glit(c['n'], c['S']))
                                        for c in tri_dir], shard=200)
     for c, v in zip(tri_dir, dvals):
@@ -246,6 +250,9 @@ def run(ctx, scratch):
         r = r['ok']
         # model-internal agreement (L0 vs L1 of the model, model vs python oracle): a failure here is a harness/model
         # error and is reported as broken correspondence, never silently dropped
+        if m['heap_inv'] is not True:
+            ctx.violation('model', 'heap invariant (heap_ok_b) fails before some pop_min of the L0 model', case=case,
+                          family=fam, kind='model')
         if m['peel'] is None or [int(x) for x in m['peel']] != c['core'] or m['cliques'] != m['cliques_l1']:
             ctx.violation('model', 'L1 and L0 models (or the python peeling) disagree', case=case,
                           expected=dict(core=c['core']), observed=dict(peel=m['peel'], l0=m['cliques'], l1=m['cliques_l1']),
@@ -287,10 +294,12 @@ def run(ctx, scratch):
         if c.get('argsort_bad'):
             ctx.violation('count_cliques', 'np.argsort(core values) is not a permutation of the nodes', case=case,
                           observed=r.get('argsort'), family=fam, kind='oracle-contract')
-        for k, mv in zip(c['ks'], m['cliques']):
+        mcl = dict(zip(c['mks'], m['cliques']))
+        for k in c['ks']:
             clique_runs += 1
             got = r['cliques'][str(k)]
-            if got != mv:
+            mv = mcl.get(k)
+            if mv is not None and got != mv:
                 ctx.violation('count_cliques', 'implementation differs from the model of the listing kernel', case=case,
                               expected=mv, observed=got, k=k, family=fam, kind='correspondence')
             if c['profile'] is not None:
